@@ -2058,6 +2058,21 @@ class Interp:
         self.libmeth[("ItemGetter", "__call__")] = lambda I, v, a, k, n: (I.getitem(a[0], v.attrs["keys"][0], n) if len(v.attrs["keys"]) == 1
                                                                           else tuple(I.getitem(a[0], x, n) for x in v.attrs["keys"]))
 
+        def _attr_path(I, o, path, n):
+            for part in path.split("."):
+                o = I.getattr_(o, part, n)
+            return o
+        E["operator.attrgetter"] = lambda I, a, k, n: Obj(kind="AttrGetter", label="attrgetter", attrs={"names": list(a)})
+        self.libmeth[("AttrGetter", "__call__")] = lambda I, v, a, k, n: (_attr_path(I, a[0], v.attrs["names"][0], n) if len(v.attrs["names"]) == 1
+                                                                          else tuple(_attr_path(I, a[0], x, n) for x in v.attrs["names"]))
+        E["operator.methodcaller"] = lambda I, a, k, n: Obj(kind="MethodCaller", label="methodcaller", attrs={"name": a[0], "args": list(a[1:]), "kwargs": dict(k)})
+        self.libmeth[("MethodCaller", "__call__")] = lambda I, v, a, k, n: I.call_value(I.getattr_(a[0], v.attrs["name"], n), list(v.attrs["args"]), dict(v.attrs["kwargs"]), n)
+        for nm_, cmp_ in {"eq": ast.Eq, "ne": ast.NotEq, "lt": ast.Lt, "le": ast.LtE, "gt": ast.Gt, "ge": ast.GtE, "is_": ast.Is, "is_not": ast.IsNot}.items():
+            if f"operator.{nm_}" not in E:
+                E[f"operator.{nm_}"] = (lambda c_: lambda I, a, k, n: I.compare(c_(), a[0], a[1], n))(cmp_)
+        if "operator.getitem" not in E:
+            E["operator.getitem"] = lambda I, a, k, n: I.getitem(a[0], a[1], n)
+
         def b_reduce(I, a, k, n):
             seq = list(I.iterate(a[1], n))
             if len(a) > 2:
@@ -2295,6 +2310,7 @@ class Interp:
         E["builtins.int"] = b_float
         E["builtins.str"] = b_str
         E["builtins.repr"] = lambda I, a, k, n: Opaque("str")
+        E["builtins.format"] = lambda I, a, k, n: b_str(I, a[:1], {}, n) if (len(a) == 1 or a[1] == "") else Opaque("str")
         E["builtins.bool"] = lambda I, a, k, n: I.truth(a[0], n) if a else False
         E["builtins.getattr"] = b_getattr
         E["builtins.setattr"] = lambda I, a, k, n: I.setattr_(a[0], a[1], a[2], n)
